@@ -23,6 +23,10 @@ type errManyToManyMatch struct {
 	sampleID          uint64
 	duplicateSampleID uint64
 	side              binOpSide
+	// multipleMatches is set when several series of the "many" side match
+	// one series of the "one" side although the matching does not allow it;
+	// it holds the reason as the Prometheus engine words it.
+	multipleMatches string
 }
 
 func newManyToManyMatchError(sampleID, duplicateSampleID uint64, side binOpSide) *errManyToManyMatch {
@@ -33,115 +37,150 @@ func newManyToManyMatchError(sampleID, duplicateSampleID uint64, side binOpSide)
 	}
 }
 
-type outputSample struct {
-	lhT        int64
-	rhT        int64
-	lhSampleID uint64
-	rhSampleID uint64
-	v          float64
+// oneSideSample is the sample of the "one" side seen for a match group at the
+// step being evaluated.
+type oneSideSample struct {
+	epoch    uint64
+	sampleID uint64
+	v        float64
 }
 
+// table evaluates one step of a vector binary operation with the matching
+// rules of the Prometheus engine:
+//   - nothing matches, and nothing fails, when either side is empty;
+//   - two samples of the "one" side in the same match group fail the query;
+//   - a sample of the "many" side is paired with the "one" side sample of its
+//     match group, if there is one; with one-to-one matching a second pairing in
+//     the same group fails the query, with group_left/group_right two pairings
+//     that produce the same output labels fail it. A pairing filtered out by a
+//     comparison does not count.
 type table struct {
 	pool *model.VectorPool
 
 	operation operation
 	card      parser.VectorMatchCardinality
 
-	outputValues []outputSample
-	// highCardOutputIndex is a mapping from series ID of the high cardinality
-	// operator to an output series ID.
-	// During joins, each high cardinality series that has a matching
-	// low cardinality series will map to exactly one output series.
-	highCardOutputIndex outputIndex
-	// lowCardOutputIndex is a mapping from series ID of the low cardinality
-	// operator to an output series ID.
-	// Each series from the low cardinality operator can join with many
-	// series of the high cardinality operator.
-	lowCardOutputIndex outputIndex
+	// manyOutputIndex maps a series ID of the "many" side to its output
+	// series ID, nil when no series of the "one" side can ever match it.
+	manyOutputIndex []*uint64
+	// manySignatures and oneSignatures map series IDs to match group IDs.
+	manySignatures []int
+	oneSignatures  []int
+	// outputGroups maps an output series ID to the ID shared by all output
+	// series with the same labels.
+	outputGroups []int
+
+	epoch        uint64
+	oneSamples   []oneSideSample
+	matchedGroup []uint64
+	outputSeen   []uint64
 }
 
 func newTable(
 	pool *model.VectorPool,
 	card parser.VectorMatchCardinality,
 	operation operation,
-	outputValues []outputSample,
-	highCardOutputCache outputIndex,
-	lowCardOutputCache outputIndex,
+	manyOutputIndex []*uint64,
+	manySignatures []int,
+	oneSignatures []int,
+	numSignatures int,
+	outputGroups []int,
 ) *table {
-	for i := range outputValues {
-		outputValues[i].lhT = -1
-		outputValues[i].rhT = -1
-	}
 	return &table{
 		pool: pool,
 		card: card,
 
-		operation:           operation,
-		outputValues:        outputValues,
-		highCardOutputIndex: highCardOutputCache,
-		lowCardOutputIndex:  lowCardOutputCache,
+		operation:       operation,
+		manyOutputIndex: manyOutputIndex,
+		manySignatures:  manySignatures,
+		oneSignatures:   oneSignatures,
+		outputGroups:    outputGroups,
+
+		oneSamples:   make([]oneSideSample, numSignatures),
+		matchedGroup: make([]uint64, numSignatures),
+		outputSeen:   make([]uint64, len(outputGroups)),
 	}
 }
 
 func (t *table) execBinaryOperation(lhs model.StepVector, rhs model.StepVector, returnBool bool) (model.StepVector, *errManyToManyMatch) {
 	ts := lhs.T
+	if len(lhs.Samples) == 0 {
+		ts = rhs.T
+	}
 	step := t.pool.GetStepVector(ts)
+	// Nothing is going to match.
+	if len(lhs.Samples) == 0 || len(rhs.Samples) == 0 {
+		return step, nil
+	}
 
-	lhsIndex, rhsIndex := t.highCardOutputIndex, t.lowCardOutputIndex
+	many, one := lhs, rhs
+	oneSide := rhBinOpSide
 	if t.card == parser.CardOneToMany {
-		lhsIndex, rhsIndex = rhsIndex, lhsIndex
+		many, one = rhs, lhs
+		oneSide = lhBinOpSide
 	}
 
-	for i, sampleID := range lhs.SampleIDs {
-		lhsVal := lhs.Samples[i]
-		outputSampleIDs := lhsIndex.outputSamples(sampleID)
-		for _, outputSampleID := range outputSampleIDs {
-			if t.card != parser.CardManyToOne && t.outputValues[outputSampleID].lhT == ts {
-				prevSampleID := t.outputValues[outputSampleID].lhSampleID
-				return model.StepVector{}, newManyToManyMatchError(prevSampleID, sampleID, lhBinOpSide)
-			}
-
-			t.outputValues[outputSampleID].lhSampleID = sampleID
-			t.outputValues[outputSampleID].lhT = lhs.T
-			t.outputValues[outputSampleID].v = lhsVal
+	t.epoch++
+	for i, sampleID := range one.SampleIDs {
+		group := t.oneSignatures[sampleID]
+		if t.oneSamples[group].epoch == t.epoch {
+			t.pool.PutStepVector(step)
+			return model.StepVector{}, newManyToManyMatchError(t.oneSamples[group].sampleID, sampleID, oneSide)
 		}
+		t.oneSamples[group] = oneSideSample{epoch: t.epoch, sampleID: sampleID, v: one.Samples[i]}
 	}
 
-	for i, sampleID := range rhs.SampleIDs {
-		rhVal := rhs.Samples[i]
-		outputSampleIDs := rhsIndex.outputSamples(sampleID)
-		for _, outputSampleID := range outputSampleIDs {
-			outputSample := t.outputValues[outputSampleID]
-			if rhs.T != outputSample.lhT {
-				continue
-			}
-			if t.card != parser.CardOneToMany && outputSample.rhT == rhs.T {
-				prevSampleID := t.outputValues[outputSampleID].rhSampleID
-				return model.StepVector{}, newManyToManyMatchError(prevSampleID, sampleID, rhBinOpSide)
-			}
-			t.outputValues[outputSampleID].rhSampleID = sampleID
-			t.outputValues[outputSampleID].rhT = rhs.T
+	for i, sampleID := range many.SampleIDs {
+		group := t.manySignatures[sampleID]
+		oneSample := t.oneSamples[group]
+		if oneSample.epoch != t.epoch {
+			continue
+		}
+		outputSampleID := t.manyOutputIndex[sampleID]
+		if outputSampleID == nil {
+			continue
+		}
 
-			outputVal, keep := t.operation([2]float64{outputSample.v, rhVal}, 0)
-			if returnBool {
-				outputVal = 0
-				if keep {
-					outputVal = 1
+		operands := [2]float64{many.Samples[i], oneSample.v}
+		if t.card == parser.CardOneToMany {
+			operands[0], operands[1] = operands[1], operands[0]
+		}
+		outputVal, keep := t.operation(operands, 0)
+		if returnBool {
+			outputVal = 0
+			if keep {
+				outputVal = 1
+			}
+		} else if !keep {
+			continue
+		}
+
+		if t.card == parser.CardOneToOne {
+			if t.matchedGroup[group] == t.epoch {
+				t.pool.PutStepVector(step)
+				return model.StepVector{}, &errManyToManyMatch{
+					multipleMatches: "multiple matches for labels: many-to-one matching must be explicit (group_left/group_right)",
 				}
-			} else if !keep {
-				continue
 			}
-			step.SampleIDs = append(step.SampleIDs, outputSampleID)
-			step.Samples = append(step.Samples, outputVal)
+			t.matchedGroup[group] = t.epoch
+		} else {
+			outputGroup := t.outputGroups[*outputSampleID]
+			if t.outputSeen[outputGroup] == t.epoch {
+				t.pool.PutStepVector(step)
+				return model.StepVector{}, &errManyToManyMatch{
+					multipleMatches: "multiple matches for labels: grouping labels must ensure unique matches",
+				}
+			}
+			t.outputSeen[outputGroup] = t.epoch
 		}
+
+		step.SampleIDs = append(step.SampleIDs, *outputSampleID)
+		step.Samples = append(step.Samples, outputVal)
 	}
 
 	return step, nil
 }
 
-// operands is a length 2 array which contains lhs and rhs.
-// valueIdx is used in vector comparison operator to decide
-// which operand value we should return.
 type operation func(operands [2]float64, valueIdx int) (float64, bool)
 
 var operations = map[string]operation{
